@@ -30,6 +30,11 @@ LEVEL_NOTE = "Trusts: Lean kernel; correspondence sampling of histories; the pol
 TECHNIQUE = "Lean 4 refinement theorems (dispatch step vs flat partial map, invariant by induction over histories) + differential correspondence on callback traces + Lean trace oracle"
 
 
+
+# history-level refinement (Props/C02History, Props/C09History): the per-step theorems lifted to EVERY history against the flat-map specification
+THEOREMS = THEOREMS + ['Portus.C02.step_refines', 'Portus.C02.history_refines_from', 'Portus.C02.history_refines_flat_map', 'Portus.C02.complete_run_equals_spec', 'Portus.C02.report_reaches_current_handler_only', 'Portus.C02.closed_flow_hears_nothing', 'Portus.C02.Abs_init', 'Portus.C02.loop_calls_eq_hist_calls', 'Portus.C02.loop_refines_flat_map']
+AUDIT_IMPORTS = ['PortusModel.Props.C02History', 'PortusModel.Props.C02Loop']
+
 def project(c, r):
     return R.project(r, KEEP)
 
@@ -44,6 +49,8 @@ def gen(ctx):
         sa = R.gen_script(rng, algs, allp, n=rng.randrange(8, 25), adversarial=0.0, faults=0.0, stop=0.0)
         sb = R.gen_script(rng, algs, allp, n=rng.randrange(8, 25), adversarial=0.0, faults=0.0, stop=0.0)
         yield Case("RUNPAIR", "%s SCRIPT %s || %s SCRIPT %s" % (cfg, " ".join(sa), cfg, " ".join(sb)), tags=("two-runtimes",))
+    for _s in R.long_fault_runs():
+        yield Case("RUN", _s, tags=("history-long-recv-failure-run",))
     n = 40000 if ctx.thorough else 2000
     for _ in range(n):
         yield Case("RUN", R.gen_case(rng, n=rng.randrange(1, 61 if ctx.thorough else 31), adversarial=rng.choice([0.0, 0.0, 0.05]),
